@@ -40,7 +40,7 @@ ASSUMPTIONS = [
     "the lifecycle clause ('no rule remains when ball over / tilted / service / no game') exempts a device that "
     "received an explicit enable request after that phase began (hostile requests are part of the workload)",
     "autofire/kickback with timeout protection: while an enable is wanted the device may be disabled from any hit on "
-    "(once max_hits hits were seen) until timeout_disable_time after the last hit; whether the protection trips is "
+    "(once max_hits hits were seen in the whole case: the device keeps its hit history across disable/enable) until timeout_disable_time after the last hit; whether the protection trips is "
     "outside the statement (the watch window is known to be mis-scaled) and not judged",
     "an event listed in both a device's lists, or rules on two platforms, are not generated",
     "coil_pulse_delay uses a harness double for set_delayed_pulse_on_hit_rule (absent on the virtual platform)",
@@ -48,9 +48,11 @@ ASSUMPTIONS = [
     "a harness handler may hold the game mode's stopping queue for 0.2-3 s (stands for game modes that take time to "
     "stop); the service controller is entered/left through its public start_service()/stop_service(), and not "
     "re-entered while the machine reset of the previous exit is still running (the service mode's own loop awaits it)",
-    "all harness time steps are dyadic (1/1024 s granularity) and tilt settle times are 0/0.5/3 s: with inexact "
-    "instants Tilt._tilt_done can re-arm itself with a delay below the float resolution of the virtual clock and "
-    "spin forever at one instant (an artefact of virtual time, unrelated to this property)",
+    "harness time steps are dyadic and the tilt settle time is always 0: with a non-zero settle time and a tilt "
+    "warning, Tilt._tilt_done re-arms itself for 'settle - elapsed' ms; TimeTravelLoop accumulates rounding error, so "
+    "this can come out as ~1e-12 ms, a delay below the float resolution of the virtual clock, and the delay then "
+    "spins forever at one instant (an artefact of virtual time, unrelated to this property); the prolonged "
+    "'tilted until settled' phase is therefore only exercised through tilts whose balls are never collected",
     "tilt in the fake game: the harness may zero the playfield ball counts just before the tilt (there is no drain "
     "device that could collect balls afterwards)",
 ]
@@ -305,7 +307,7 @@ def _build_config(cfg):
 
 def _tilt_mode_cfg(cfg):
     t = cfg["tilt"]
-    return {"tilt": {"warnings_to_tilt": t["warnings"], "settle_time": "%dms" % t["settle_ms"],
+    return {"tilt": {"warnings_to_tilt": t["warnings"], "settle_time": "0ms",      # t["settle_ms"] is not used: see ASSUMPTIONS (virtual-clock livelock)
                      "multiple_hit_window": "300ms", "tilt_events": "do_tilt", "tilt_slam_tilt_events": "do_slam",
                      "tilt_warning_events": "do_warn"}}
 
@@ -526,7 +528,8 @@ def _run(case, mon):
             return None
 
         # ---- spy on control / lifecycle events (after the devices' own handlers) ---------------
-        spy_events = {"ball_started", "ball_will_end", "service_mode_entered", "tilt"}
+        spy_events = {"ball_started", "ball_will_end", "service_mode_entered", "tilt", "mode_game_started",
+                      "mode_game_stopping", "mode_game_stopped"}
         for d in devs:
             spy_events |= d["en_ev"] | d["dis_ev"]
 
@@ -553,6 +556,10 @@ def _run(case, mon):
                 elif ev == "tilt":
                     if st["ball_live"]:
                         st["tilt_seen"] = True
+                elif ev in ("mode_game_started", "mode_game_stopping", "mode_game_stopped", "service_mode_entered"):
+                    # a game killed by service mode posts no ball_will_end; a new game has no live ball yet
+                    st["ball_live"] = False
+                    st["tilt_seen"] = False
                 elif ev == "ball_will_end":
                     st["ball_live"] = False
                     obs["balls_ended"] += 1
@@ -565,6 +572,10 @@ def _run(case, mon):
                         set_want_on(d)
                         if late:
                             d["late_enable"] = late
+                        if ev != "ball_started" and off_reason():
+                            # a hostile enable event counts for the phase in which it is DISPATCHED (it may have
+                            # been posted while ball_will_end was already queued ahead of it)
+                            d["explicit_on"] = True
             return spy
         for ev in sorted(spy_events):
             m.events.add_handler(ev, mk_spy(ev), priority=-100000)
@@ -573,7 +584,8 @@ def _run(case, mon):
             if not d["want"]:
                 d["want"] = True
                 d["want_since"] = vm.now()
-                d["hits"] = []
+                # hits are NOT forgotten here: the device keeps its hit history across disable/enable, so hits of
+                # the previous enabled period that are still inside the watch window count towards the next trip
 
         # ---- oracle: invariant at iteration boundaries -----------------------------------------
         def sw_handler_counts():
